@@ -1,6 +1,8 @@
 import CnlDriver.CS
 import CnlModel.Exp2
 import CnlSpec.Exp2
+import CnlModel.Numbers
+import CnlSpec.Numbers
 /-! `C20` driver table: `cnl::exp2` (model + certified-floor oracle) and the `<numbers>` constants. -/
 namespace Cnl.Drv
 open Cnl
@@ -12,7 +14,7 @@ def exp2Integral (E rep : Int) : Bool := if E < 0 then rep % 2^(-E).toNat == 0 e
 
 /-- the property's demand on a result `v` given the true floor `want` -/
 def exp2Accept (E rep : Int) (want : Nat) (v : Int) : Bool :=
-  decide ((v - want).natAbs ≤ 1) && (!exp2Integral E rep || v == want)
+  decide ((v - want).natAbs ≤ 1) && (!(exp2Integral E rep && decide ((Spec.Exp2.expArg E rep).2 ≥ 0)) || v == want)
 
 /-- known-defect classes (functions of format and input only) -/
 def exp2Class (f : Exp2.Fmt) (rep : Int) (want : Nat) : String :=
@@ -30,7 +32,7 @@ def checkC20 (toks : List String) (res : String) : Option Verdict :=
     let f : Exp2.Fmt := ⟨t.bits, t.signed, e⟩
     let m := showExp2 (Exp2.exp2 f r)
     let fmtS := ty ++ "/" ++ toString e
-    match Spec.Exp2.ref? e r with
+    match Spec.Exp2.ref? t.bits e r with
     | some want =>
       if (want : Int) ≤ t.max then
         let ok := match res.toInt? with
@@ -43,7 +45,19 @@ def checkC20 (toks : List String) (res : String) : Option Verdict :=
                branch := "exp2/" ++ fmtS ++ "/dev=" ++ dev ++ (if exp2Integral e r then "/integral" else ""),
                nontrivial := true }
       else some { model := m, spec := none, branch := "exp2/" ++ fmtS ++ "/unrepresentable", nontrivial := false }
-    | none => some { model := m, spec := none, branch := "exp2/" ++ fmtS ++ "/oracle-undecided", nontrivial := false }
+    | none => some { model := m, spec := none,
+                     branch := "exp2/" ++ fmtS ++ (if Spec.Exp2.tooBig t.bits e r then "/unrepresentable" else "/oracle-undecided"), nontrivial := false }
+  | ["num", name, ty, e] => do
+    let t ← parseIntTy ty; let e ← e.toInt?
+    let m := showExp2 (Numbers.stored name t e)
+    let c ← res.toInt?
+    -- exact oracle for the algebraic constants, 60-digit reference for the others
+    let (ok, how) := match Spec.Numbers.within1Alg name e c with
+      | some b => (some b, "exact")
+      | none => (Spec.Numbers.within1Ref name e c, "ref60")
+    let trunc := match Spec.Numbers.truncRef name e c with
+      | some true => "/truncated" | some false => "/rounded-up" | none => ""
+    some { model := m, spec := ok, branch := "num/" ++ name ++ "/" ++ how ++ trunc, nontrivial := true }
   | _ => none
 
 end Cnl.Drv
